@@ -195,6 +195,12 @@ class Executor:
             if isinstance(x.ty, OptT) and (x.ty.inner == y.ty):
                 return self.coerce(a, x.ty), self.coerce(b, x.ty), x.ty
         for x, y in ((a, b), (b, a)):
+            yt = y.ty.inner if isinstance(y.ty, OptT) else y.ty
+            if x.ty is PY and x.py == ("emptyset",) and isinstance(yt, SetT):
+                e = self.coerce(x, yt)
+                e = V(e.term, y.ty)
+                return (e, y, y.ty) if x is a else (y, e, y.ty)
+        for x, y in ((a, b), (b, a)):
             if x.ty is TUPLE and len(x.py) == 0 and isinstance(y.ty, SeqT):
                 e = V(fn("seq.empty", Ref)() if False else z3.Const("seq.empty", Ref), y.ty)
                 return (e, y, y.ty) if x is a else (y, e, y.ty)
